@@ -139,6 +139,37 @@ func policyValid(id []av) bool {
 	return seen["C"] && seen["ST"] && seen["O"]
 }
 
+// verdictPlugin owns the capabilities it declares and reports `ok` for trusted identity (success for anything else).
+type verdictPlugin struct {
+	caps []pf.Capability
+	ok   bool
+}
+
+func (p *verdictPlugin) GetMetadata(ctx context.Context, req *pf.GetMetadataRequest) (*pf.GetMetadataResponse, error) {
+	return &pf.GetMetadataResponse{Name: "plug", Description: "d", Version: "1.0.0", URL: "u", SupportedContractVersions: []string{"1.0"}, Capabilities: p.caps}, nil
+}
+func (p *verdictPlugin) DescribeKey(ctx context.Context, req *pf.DescribeKeyRequest) (*pf.DescribeKeyResponse, error) {
+	return nil, fmt.Errorf("not a signer")
+}
+func (p *verdictPlugin) GenerateSignature(ctx context.Context, req *pf.GenerateSignatureRequest) (*pf.GenerateSignatureResponse, error) {
+	return nil, fmt.Errorf("not a signer")
+}
+func (p *verdictPlugin) GenerateEnvelope(ctx context.Context, req *pf.GenerateEnvelopeRequest) (*pf.GenerateEnvelopeResponse, error) {
+	return nil, fmt.Errorf("not a signer")
+}
+func (p *verdictPlugin) VerifySignature(ctx context.Context, req *pf.VerifySignatureRequest) (*pf.VerifySignatureResponse, error) {
+	resp := &pf.VerifySignatureResponse{VerificationResults: map[pf.Capability]*pf.VerificationResult{}}
+	for _, c := range req.TrustPolicy.SignatureVerification {
+		resp.VerificationResults[c] = &pf.VerificationResult{Success: c != pf.CapabilityTrustedIdentityVerifier || p.ok, Reason: "scripted"}
+	}
+	return resp, nil
+}
+
+type verdictManager struct{ p *verdictPlugin }
+
+func (m verdictManager) Get(ctx context.Context, name string) (pf.Plugin, error) { return m.p, nil }
+func (m verdictManager) List(ctx context.Context) ([]string, error)              { return []string{"plug"}, nil }
+
 type caseT struct {
 	Shape      string
 	Subject    [][]av
@@ -381,6 +412,15 @@ func main() {
 		var ext []signature.Attribute
 		var pm lib.ScriptedManager
 		revOnlyPlugin := i%5 == 4
+		// another fifth: a plugin that OWNS trusted-identity verification (declared after its revocation capability) and
+		// answers honestly, under a level that skips revocation: somebody has to check the identity - the plugin, since it
+		// declares the capability, whatever else it declares and whatever the level skips
+		honestTI := i%5 == 3
+		tiPlug := &verdictPlugin{caps: []pf.Capability{pf.CapabilityRevocationCheckVerifier, pf.CapabilityTrustedIdentityVerifier}}
+		if honestTI {
+			ext = []signature.Attribute{{Key: lib.HdrPlugin, Critical: true, Value: "plug"}}
+			r.Event("cases-with-honest-identity-plugin")
+		}
 		if revOnlyPlugin {
 			ext = []signature.Attribute{{Key: lib.HdrPlugin, Critical: true, Value: "plug"}}
 			pm = lib.ScriptedManager{P: &lib.ScriptedPlugin{Caps: []pf.Capability{pf.CapabilityRevocationCheckVerifier, pf.CapabilitySignatureGenerator}}}
@@ -405,6 +445,10 @@ func main() {
 		if i%3 == 0 {
 			L.Auth = "log"
 		}
+		if honestTI {
+			L.Rev = "skip"
+			tiPlug.ok = wild || wantAny
+		}
 		variants := 4
 		if len(c.Identities) == 0 {
 			variants = 1
@@ -419,6 +463,9 @@ func main() {
 			vopts := verifier.VerifierOptions{OCITrustPolicy: doc, RevocationCodeSigningValidator: lib.OKRev{}, RevocationTimestampingValidator: lib.OKRev{}}
 			if revOnlyPlugin {
 				vopts.PluginManager = pm
+			}
+			if honestTI {
+				vopts.PluginManager = verdictManager{tiPlug}
 			}
 			v, err := verifier.NewVerifierWithOptions(ts, vopts)
 			wit := map[string]any{"case": c, "leaf_subject": leaf.Cert.Subject.String(), "identities": idStrs, "variant": variant}
@@ -479,6 +526,48 @@ func main() {
 			case !pass && wantAny:
 				r.Event("completeness:contained-but-rejected")
 				r.Sample("contained but rejected", wit)
+			}
+		}
+		// ---- an identity that cannot be interpreted fails closed EVEN NEXT TO a matching one. Policy validation keeps such
+		// identities out at construction, so the only way one reaches the check is a document edited afterwards by its
+		// owner. Whether the verifier sees later edits at all is its business: a probe (replace the identities by a
+		// foreign one - does authenticity now fail?) decides that first; only then is the clause judged.
+		if i%4 == 1 && wantAny && allValid && !wild && !revOnlyPlugin && !honestTI && !overlap(c.Identities) {
+			var idStrs []string
+			for _, id := range c.Identities {
+				idStrs = append(idStrs, render(id, rng, 0))
+			}
+			doc := lib.OCIPolicy(L.SV(i), []string{"ca:x"}, idStrs)
+			if v, err := verifier.NewVerifierWithOptions(ts, verifier.VerifierOptions{OCITrustPolicy: doc, RevocationCodeSigningValidator: lib.OKRev{}, RevocationTimestampingValidator: lib.OKRev{}}); err == nil {
+				authPass := func() (bool, bool) {
+					out, _ := v.Verify(context.Background(), desc, sig, notation.VerifierVerifyOptions{ArtifactReference: "r.io/a@" + desc.Digest.String(), SignatureMediaType: format})
+					if out == nil {
+						return false, false
+					}
+					for _, res := range out.VerificationResults {
+						if res.Type == trustpolicy.TypeAuthenticity {
+							return res.Error == nil, true
+						}
+					}
+					return false, false
+				}
+				if p0, ok0 := authPass(); ok0 && p0 {
+					doc.TrustPolicies[0].TrustedIdentities = []string{"x509.subject:C=ZZ,ST=ZZ,O=Nobody"}
+					if p1, ok1 := authPass(); ok1 && !p1 { // the verifier reads the live document
+						bad := []string{"x509.subject:C=US,,O=x", "x509.subject:C=US,ST=WA", "x509.subject:=", "x509.subject:C=US,ST=WA,O=Org,OU=a,OU=b", "x509.subject:C=US+ST=WA,O=Org"}[rng.Intn(5)]
+						ids := append(append([]string{}, idStrs...), bad)
+						if rng.Bool() {
+							ids = append([]string{bad}, idStrs...)
+						}
+						doc.TrustPolicies[0].TrustedIdentities = ids
+						r.Event("uninterpretable-identity-next-to-matching-one")
+						if p2, ok2 := authPass(); ok2 && p2 {
+							r.Violation(map[string]string{"kind": "pass-with-uninterpretable-identity", "shape": c.Shape}, fmt.Sprintf("authenticity passed although the statement lists the uninterpretable identity %q (next to a matching one): must fail closed", bad), map[string]any{"identities": ids, "leaf_subject": leaf.Cert.Subject.String()})
+						}
+					} else {
+						r.Event("verifier-does-not-see-later-edits")
+					}
+				}
 			}
 		}
 		// ---- one verifier holding an OCI and a blob statement with the SAME name but different identities: what one
